@@ -12,6 +12,7 @@ package robase64
 //@   binds v encoder
 //@   calls DecodeString
 //@   params v
+//@   scope encoder v
 //@   maypanic
 //@   track call.*
 //@   ensures [calls-the-wrapped-function-once|C18] count(call.ANY) == 1 && called(call.Encoding.DecodeString)
@@ -23,6 +24,7 @@ package robase64
 //@   binds v encoder
 //@   calls EncodeToString
 //@   params v
+//@   scope encoder v
 //@   maypanic
 //@   track call.*
 //@   ensures [calls-the-wrapped-function-once|C18] count(call.ANY) == 1 && called(call.Encoding.EncodeToString)
